@@ -250,7 +250,7 @@ CHECKS["C07"] = dict(
               "restore in finally; the function fails at its k-th evaluation), model-checked by TLC (invariant Restored) and used to emit "
               "the scenarios; each replayed under both backends with a failing probe; recorded snapshots of all globals judged by TLC "
               "with FrameAbs.tla (FrameTrace.tla)",
-    text="13 gradient forms (f:>p, f:>a, p∇f, a∇f, p∂g, a∂g, .jacobian, loss:>[w b], [b w], [w b w], [w w], [w b]∂g, [w w]∂g) x fault "
+    text="15 gradient forms (incl. parameter lists that name a function; f:>p, f:>a, p∇f, a∇f, p∂g, a∂g, .jacobian, loss:>[w b], [b w], [w b w], [w w], [w b]∂g, [w w]∂g) x fault "
          "position k = 0..8 x fault kind (raise, non-scalar result, unknown name, none) x numpy/torch: after the operator returns or fails "
          "every global has its value, Python type, dtype and gradient-tracking flag of before, the context is as deep as before, and the "
          "differentiated function returns what it returned before.",
